@@ -176,7 +176,9 @@ def ctor_at_call_sites(reg, c, field_types):
     c2 = copy.copy(c)
     c2.target = c.target + '#call'
     c2.params = dict({'self': 'any'}, **c.params)
-    c2.modifies = {'self.' + f: t for f, t in field_types.items()}
+    from vf.pyvc.contracts import split_union
+    # union-typed fields: None = take the (lazily resolved) union type from the class contract
+    c2.modifies = {'self.' + f: (t if len(split_union(t)) == 1 else None) for f, t in field_types.items()}
     reg.contracts[c2.target] = c2
 
     def model(E, st, args, kwargs):
